@@ -344,7 +344,7 @@ let cluster_dump (c : cluster) : string =
         Printf.sprintf "%s=%s@%s/%s" (esc k) (sesc v.v_val) (z_str v.v_ver) (if v.v_st = VDeleted then "D" else "L")) ks));
       Buffer.add_string b "]") dbs) c.c_nodes;
   let ls = List.sort compare (List.filter_map (fun l ->
-      if l.l_open then Some (string_of_cl l.l_from ^ ">" ^ string_of_cl l.l_to) else None) c.c_links) in
+      if l.l_open then Some (Printf.sprintf "%s>%s:%s/%s" (string_of_cl l.l_from) (string_of_cl l.l_to) (dec_of_n l.l_sent) (dec_of_n l.l_back)) else None) c.c_links) in
   Buffer.add_string b (Printf.sprintf " links=[%s]" (String.concat "," ls));
   Buffer.contents b
 
@@ -354,13 +354,15 @@ let find_link (c : cluster) (from : string) (to_ : string) : int option =
     | l :: r -> if l.l_open && string_of_cl l.l_from = from && string_of_cl l.l_to = to_ then Some i else go (i + 1) r in
   go 0 c.c_links
 
+let cnotices : (string, string list) Hashtbl.t = Hashtbl.create 8
 let run_cluster (path : string) =
   List.iter (fun cs ->
     Printf.printf "C %s\n" cs.id;
+    Hashtbl.reset cnotices;
     let nodes = List.map (fun h ->
         match String.split_on_char '/' h with
         | [name; r; pid] -> (cl_of_string name, init_cnode (cl_of_string "nun") (cl_of_string "pwd") (cl_of_string name) (n_of_dec pid) (role_of_tok r) clock0)
-        | _ -> failwith "bad cluster header") cs.header in
+        | _ -> failwith "bad cluster header") (List.filter (fun h -> String.contains h '/') cs.header) in
     (* give every node its own clock range so that op ids never collide across nodes *)
     let nodes = List.mapi (fun i (nm, x) ->
         (nm, { x with cn_node = n_set_clock x.cn_node (n_of_dec (Printf.sprintf "1%d00000000000000000" (i + 1))) })) nodes in
@@ -372,6 +374,20 @@ let run_cluster (path : string) =
         | ["cmd"; node; sid; line] ->
           let (c', r) = client_cmd !c (cl_of_string node) (nat_of_int (int_of_string sid)) (cl_of_string (unhex line)) in
           c := c'; resp_str r
+        | ["rsv"; node; sid; idx; value] ->
+          let key = node ^ "/" ^ sid in
+          let notes = (try Hashtbl.find cnotices key with Not_found -> []) in
+          if notes = [] then "NoNotice" else begin
+            let nt = List.nth notes (int_of_string idx mod List.length notes) in
+            let rec splitn k s = if k = 1 then [s] else
+                match String.index_opt s ' ' with
+                | None -> [s]
+                | Some i -> String.sub s 0 i :: splitn (k - 1) (String.sub s (i + 1) (String.length s - i - 1)) in
+            let t = splitn 7 nt in
+            if List.length t < 5 then "NoNotice" else begin
+              let line = Printf.sprintf "resolve %s %s %s %s %s" (List.nth t 1) (List.nth t 2) (List.nth t 4) (List.nth t 3) (unhex value) in
+              let (c', r) = client_cmd !c (cl_of_string node) (nat_of_int (int_of_string sid)) (cl_of_string line) in
+              c := c'; resp_str r end end
         | ["addsec"; node; nw] -> c := add_sec !c (cl_of_string node) (cl_of_string nw); "Queued"
         | ["pollsup"; node] -> c := poll_sup !c (cl_of_string node); "Polled"
         | ["pollrepl"; node] -> c := poll_repl_c !c (cl_of_string node); "Polled"
@@ -397,6 +413,10 @@ let run_cluster (path : string) =
           List.iteri (fun ci sid ->
             let s = get_sess !n sid in
             if s.s_inbox <> [] then begin
+              List.iter (fun m -> let m = string_of_cl m in
+                if starts_with_s m "resolve " then begin
+                  let key = string_of_cl nm ^ "/" ^ string_of_int ci in
+                  Hashtbl.replace cnotices key ((try Hashtbl.find cnotices key with Not_found -> []) @ [m]) end) s.s_inbox;
               parts := Printf.sprintf "%s/%d:[%s]" (string_of_cl nm) ci (String.concat "|" (List.map sesc s.s_inbox)) :: !parts;
               n := fst (drain !n sid)
             end) x.cn_clients;
